@@ -247,7 +247,9 @@ def judge_traces(ctx, results, source):
         upto = mis["l"] - 1 if mis["l"] else v["done"]
         stats["triples"] += upto
         ctx.count(n=upto, traces=1)
-        if v["done"] != v["len"] and not mis["l"]:
+        if v["done"] != v["len"] and not mis["l"] and evs[v["done"]]["op"] == "reinit":
+            stats["truncated_at_guard"] = stats.get("truncated_at_guard", 0) + 1     # remove + init inside a block whose file is already on disk: not generated
+        elif v["done"] != v["len"] and not mis["l"]:
             raise core.MachineryError("trace %r: TLC stopped after %d of %d events without a mismatch (disabled action?): %s"
                                       % (meta, v["done"], v["len"], _short(evs[:v["done"] + 1])))
         if req["l"] and (not mis["l"] or req["l"] < mis["l"]):
@@ -308,7 +310,7 @@ def _postconditions(ev, res, post, ideal, depth, own=False):
 # ---- variants of a TLC behaviour: the same operations without blocks / fully inside blocks -------
 def variants(evs):
     core_ops = [dict(e) for e in evs if e["op"] not in BUFOPS]
-    un = core_ops
+    un = [dict(e, op="remove") if e["op"] == "reinit" else e for e in core_ops]    # outside blocks: remove; the next access re-initialises
     full, open_ = [], False
     for e in core_ops:
         if e["op"] in LIFE:
@@ -436,6 +438,9 @@ def repo_scripts():
         "clear_document": [S(A, "a", 1), {"op": "clear", "h": A}, R(A), {"op": "clear", "h": A}, R(B)],
         "reset_list": [S(A, "a", [1, 2]), {"op": "append", "h": A, "k": "a", "v": 3}, {"op": "lset", "h": A, "k": "a", "ix": 0, "v": {"x": None}}, R(B)],
         "remove_reinit": [S(A, "a", 1), {"op": "remove", "h": A}, R(A), S(A, "b", 2), R(B)],
+        "remove_reinit_inside_block": [E, S(("j2", 1), "n", 0), S(A, "x", 1), {"op": "reinit", "h": A}, R(A), S(A, "y", 2), R(A), X, R(B), R(("j2", 2))],
+        "remove_reinit_inside_block_reset": [S(("j2", 1), "n", 0), E, {"op": "reset", "h": A, "v": {"x": [1]}}, {"op": "reinit", "h": A}, R(A), X, R(A),
+                                             E, S(A, "y", 2), {"op": "reinit", "h": A}, X, R(B)],
         "rekey_doc_follows": [S(A, "a", 1), {"op": "rekey", "h": A}, R(A), S(A, "b", 2), R(B)],
         "project_doc": [S(P, "a", 42), R(("p", 2)), {"op": "reset", "h": P, "v": {"b": [1]}}, R(("p", 2)), S(A, "a", 1), R(P)],
         "buffered_basic_and_nested": [S(A, "a", 0), E, S(A, "a", 1), G(A, "a"), X, G(A, "a"), E, S(A, "a", 2), E, S(A, "a", 3), G(A, "a"), X,
@@ -531,7 +536,7 @@ def run(ctx):
         st, vt = graph_slice(ctx, name, consts, flags, frac, rnd, procs)
         summary["slices"].append(st)
         vts += vt
-    need = {"set", "del", "update", "setdefault", "pop", "clear", "reset", "nset", "append", "lset", "read", "get", "enter", "exit", "remove", "rekey", "setbad"}
+    need = {"set", "del", "update", "setdefault", "pop", "clear", "reset", "nset", "append", "lset", "read", "get", "enter", "exit", "remove", "rekey", "reinit", "setbad"}
     seen_ops = set()
     for st in summary["slices"]:
         seen_ops |= {o for o, n in st["ops"].items() if n}
